@@ -20,3 +20,15 @@ void h_gridDistance(void) { H3Index a = nondet_u64(), b = nondet_u64(); int64_t 
 void h_gridPathCellsSize(void) { H3Index a = nondet_u64(), b = nondet_u64(); int64_t *out; h3v_err = nondet_u32(); h3v_dist = nondet_i64(); H3Error e = gridPathCellsSize(a, b, out); __CPROVER_assert(0, "canary gridPathCellsSize"); }
 void h_gridPathCells(void) { H3Index a = nondet_u64(), b = nondet_u64(); H3Index *out; h3v_err = nondet_u32(); h3v_dist = nondet_i64(); H3Error e = gridPathCells(a, b, out); __CPROVER_assert(0, "canary gridPathCells"); }
 void h_latLngToCell(void) { const LatLng *g; int res = nondet_int(); H3Index *out; H3Error e = latLngToCell(g, res, out); __CPROVER_assert(0, "canary latLngToCell"); }
+
+void h_upAp7Checked(void) { CoordIJK *c; H3Error e = _upAp7Checked(c); __CPROVER_assert(0, "canary _upAp7Checked"); }
+void h_upAp7rChecked(void) { CoordIJK *c; H3Error e = _upAp7rChecked(c); __CPROVER_assert(0, "canary _upAp7rChecked"); }
+void h_ijToIjk(void) { const CoordIJ *ij; CoordIJK *ijk; H3Error e = ijToIjk(ij, ijk); __CPROVER_assert(0, "canary ijToIjk"); }
+H3Error _gridDiskDistancesInternal(H3Index origin, int k, H3Index *out, int *distances, int64_t maxIdx, int curK);
+void h_gridDiskDistancesInternal(void) {
+    H3Index origin = nondet_u64(); int k = nondet_int(); H3Index *out; int *distances; int64_t maxIdx = nondet_i64(); int curK = nondet_int();
+    H3Error e = _gridDiskDistancesInternal(origin, k, out, distances, maxIdx, curK);
+    __CPROVER_assert(0, "canary _gridDiskDistancesInternal");
+}
+void h_localIjkToCell(void) { H3Index origin = nondet_u64(); const CoordIJK *ijk; H3Index *out; H3Error e = localIjkToCell(origin, ijk, out); __CPROVER_assert(0, "canary localIjkToCell"); }
+void h_cellToLocalIjk(void) { H3Index origin = nondet_u64(), h = nondet_u64(); CoordIJK *out; H3Error e = cellToLocalIjk(origin, h, out); __CPROVER_assert(0, "canary cellToLocalIjk"); }
